@@ -164,9 +164,13 @@ class FloatEval:
     def run(self):
         """Returns (result node, errbound node, structure ok?, exact call)."""
         body = self.fn["body"]["s"]
-        tail = None
+        tail = []
         for s in body:
-            if s.get("k") == "Decl":
+            if s.get("k") == "Decl" and all((d.get("t") or "").replace("const ", "").strip() == "bool" for d in s["d"]):
+                tail.append(s)          # decision flags: part of the control skeleton
+            elif s.get("k") == "Decl":
+                if tail:
+                    raise AnalysisBroken("%s: arithmetic after the decision started (line %s)" % (self.fn["full"], s.get("l")))
                 for d in s["d"]:
                     if d.get("init") is None:
                         raise AnalysisBroken("uninitialised local %s" % d["n"])
@@ -174,8 +178,10 @@ class FloatEval:
                         self.env[("l", d["id"])] = self.vec(d["init"])
                     else:
                         self.env[("l", d["id"])] = self.scalar(d["init"])
-            elif s.get("k") == "If":
-                tail = s
+            elif s.get("k") in ("If", "Return"):
+                tail.append(s)
+            elif s.get("k") == "Block" and s.get("mac"):
+                continue
             else:
                 raise AnalysisBroken("%s: unexpected statement at line %s" % (self.fn["full"], s.get("l")))
         return tail
@@ -256,8 +262,8 @@ def int_expr(fn):
                 width = w if width is None else min(width, w)
                 env[("l", d["id"])], ienv[("l", d["id"])] = conv(d["init"])
                 result_key = ("l", d["id"])
-        elif s.get("k") == "If":
-            tail = s
+        elif s.get("k") in ("If", "Return"):
+            tail = (tail or []) + [s]
         elif s.get("k") == "Block" and s.get("mac"):
             continue
         else:
@@ -292,6 +298,90 @@ def sign_chain(tail, key_of):
             return None
         out["else"] = rets[0]["x"]
     return out
+
+
+class _Undecided(Exception):
+    pass
+
+
+def decide(stmts, truth_of, unit=None, cls=None, depth=0):
+    """Evaluates the control skeleton `stmts` for one abstract case. truth_of(comparison ast) -> True / False / None.
+    Returns the returned expression ast (a constant, or a call) of the path taken."""
+    env = {}
+
+    def tv(e):
+        e = C.strip_casts(e)
+        k = e.get("k")
+        if k == "Bool":
+            return bool(e["v"])
+        if k == "Ref" and e.get("id") in env:
+            return env[e["id"]]
+        if k == "Un" and e["op"] == "!":
+            return not tv(e["x"])
+        if k == "Bin" and e["op"] in ("||", "&&"):
+            a = tv(e["a"])
+            if e["op"] == "||":
+                return True if a else tv(e["b"])
+            return False if not a else tv(e["b"])
+        if k in ("Bin", "Call"):
+            t = truth_of(e)
+            if t is not None:
+                return t
+        raise _Undecided(C.pretty(e))
+
+    def val(e):
+        e0 = C.strip_casts(e)
+        while e0.get("k") == "Ctor" and len(e0.get("a", [])) >= 1:
+            e0 = C.strip_casts(e0["a"][0])
+        if e0.get("k") == "Cond":
+            return val(e0["a"] if tv(e0["c"]) else e0["b"])
+        if e0.get("k") == "Call" and unit is not None and cls and (e0.get("fn") or "").startswith(cls + "::") and depth < 2:
+            cands = [d for d in unit.functions.get(e0["fn"], []) if d.get("body")]
+            body = cands[0] if cands else None
+            if body is not None and len(body["params"]) == 1 and len(e0["a"]) == 1 and \
+                    not any(x.get("k") in ("For", "While", "Do") for x in C.walk_stmt(body["body"])) and \
+                    len([x for x in C.walk_stmt(body["body"]) if x.get("k") == "Decl"]) == 0:
+                # a one-parameter pure helper (e.g. a sign function): evaluate it with the parameter bound to the argument
+                pid = body["params"][0]["id"]
+                arg = e0["a"][0]
+
+                def truth2(c):
+                    c2 = _subst_param(c, pid, arg)
+                    return truth_of(c2)
+                return decide(body["body"]["s"], truth2, unit, cls, depth + 1)
+        return e0
+
+    def run(sts):
+        for st in sts:
+            k = st.get("k")
+            if k == "Block":
+                if st.get("mac"):
+                    continue
+                r = run(st["s"])
+                if r is not None:
+                    return r
+            elif k == "Decl":
+                for d in st["d"]:
+                    if d.get("init") is not None and (d.get("t") or "").replace("const ", "").strip() == "bool":
+                        env[d["id"]] = tv(d["init"])
+            elif k == "If":
+                r = run([st["th"]]) if tv(st["c"]) else (run([st["el"]]) if st.get("el") is not None else None)
+                if r is not None:
+                    return r
+            elif k == "Return":
+                return val(st["x"])
+        return None
+    return run(stmts)
+
+
+def _subst_param(e, pid, arg):
+    if isinstance(e, dict):
+        if e.get("k") == "Ref" and e.get("id") == pid:
+            return arg
+        return {k: _subst_param(v, pid, arg) for k, v in e.items()}
+    if isinstance(e, list):
+        return [_subst_param(v, pid, arg) for v in e]
+    return e
 
 
 def reference_orient(P):
@@ -356,32 +446,47 @@ def run(chk, prog):
                         "the sign convention is the documented one (tetrahedron (0,0,0),(0,0,1),(0,1,0),(1,0,0) is positive)",
                         where(fe), "reference determinant of the documented example is %s and the code computes %s det" %
                         (val, "+" if same else "-"), function=fe["full"], construct="sign convention")
-        # three-way sign
-        def key_of(e):
+        # three-way sign: the control skeleton after the polynomial is evaluated for result > 0, < 0 and == 0
+        def is_result(e):
             e = C.strip_casts(e)
             while e.get("k") == "Ctor" and e.get("a") and all(
                     x.get("k") in ("DefArg", "Null") or C.strip_casts(x).get("k") == "Null" for x in e["a"][1:]):
                 e = C.strip_casts(e["a"][0])
-            if e.get("k") == "Ref" and ("l", e.get("id")) == rkey:
-                return "r"
-            v = C.const_int(e)
-            return v
-        ch = sign_chain(tail, key_of) if tail is not None else None
+            return e.get("k") == "Ref" and ("l", e.get("id")) == rkey
+
+        def truth_for(case):
+            def t(c):
+                c = C.strip_casts(c)
+                op, a0, b0 = None, None, None
+                if c.get("k") == "Bin":
+                    op, a0, b0 = c["op"], c["a"], c["b"]
+                elif c.get("k") == "Call" and c.get("op") in ("<", ">", "<=", ">=", "==", "!="):
+                    args = ([c["obj"]] if c.get("obj") is not None else []) + list(c["a"])
+                    op, a0, b0 = c["op"], args[0], args[1]
+                if op is None:
+                    return None
+                if is_result(a0) and C.const_int(b0) == 0:
+                    pass
+                elif is_result(b0) and C.const_int(a0) == 0:
+                    op = {"<": ">", ">": "<", "<=": ">=", ">=": "<=", "==": "==", "!=": "!="}[op]
+                else:
+                    return None
+                v = {"pos": 1, "neg": -1, "zero": 0}[case]
+                return {"<": v < 0, ">": v > 0, "<=": v <= 0, ">=": v >= 0, "==": v == 0, "!=": v != 0}[op]
+            return t
         oks = False
-        if ch:
+        try:
             got = {}
-            for k2, r in ch.items():
-                v = C.const_int(r)
-                if k2 == "else":
-                    got["="] = v
-                elif k2[1] == "r" and k2[2] == 0:
-                    got[k2[0]] = v
-                elif k2[1] == 0 and k2[2] == "r":
-                    got[{"<": ">", ">": "<"}[k2[0]]] = v
-            oks = got == {">": 1, "<": -1, "=": 0}
+            for case in ("pos", "neg", "zero"):
+                r = decide(tail or [], truth_for(case), u, cls)
+                got[case] = C.const_int(r) if r is not None else None
+            oks = got == {"pos": 1, "neg": -1, "zero": 0}
+        except _Undecided:
+            oks = False
+        tail_loc = (tail or [fe])[0]
         n += 1
         chk.require(oks, "E1", "%s returns +1 / -1 / 0 for a positive / negative / zero determinant" % exact_name,
-                    where(tail or fe, fe), "the final sign test is not the three-way sign of the result",
+                    where(tail_loc, fe), "the final sign test is not the three-way sign of the result",
                     function=fe["full"], construct="three-way sign")
         # ---- E2 ------------------------------------------------------------------------
         n += 1
@@ -408,31 +513,67 @@ def run(chk, prog):
         tailf = fev.run()
         locs = {d["n"]: ("l", d["id"]) for s in fa["body"]["s"] if s.get("k") == "Decl" for d in s["d"]}
 
-        def fkey(e):
-            e = C.strip_casts(e)
-            if e.get("k") == "Ref":
-                return e.get("n")
-            if e.get("k") == "Un" and e.get("op") == "-" and C.strip_casts(e["x"]).get("k") == "Ref":
-                return "-" + C.strip_casts(e["x"]).get("n")
-            return None
-        chf = sign_chain(tailf, fkey) if tailf is not None else None
+        # the decision: which two locals are compared (result against +-errbound), and what is answered in the three cases
+        cmps = []
+        for st in tailf:
+            exprs = [st["c"]] if st.get("k") == "If" else ([d["init"] for d in st["d"] if d.get("init") is not None]
+                                                           if st.get("k") == "Decl" else [])
+            for ex2 in exprs:
+                for x in C.walk(ex2):
+                    if x.get("k") == "Bin" and x["op"] in ("<", ">", "<=", ">="):
+                        cmps.append(x)
         res_name = err_name = None
+        for x in cmps:
+            a0, b0 = C.strip_casts(x["a"]), C.strip_casts(x["b"])
+            if a0.get("k") == "Ref" and a0.get("n") in locs:
+                if b0.get("k") == "Ref" and b0.get("n") in locs:
+                    res_name, err_name = a0["n"], b0["n"]
+                elif b0.get("k") == "Un" and b0["op"] == "-" and C.strip_casts(b0["x"]).get("k") == "Ref":
+                    res_name, err_name = a0["n"], C.strip_casts(b0["x"])["n"]
+
+        def truth_case(case):
+            def t(c):
+                c = C.strip_casts(c)
+                if c.get("k") != "Bin" or c["op"] not in ("<", ">", "<=", ">="):
+                    return None
+                a0, b0 = C.strip_casts(c["a"]), C.strip_casts(c["b"])
+                if not (a0.get("k") == "Ref" and a0.get("n") == res_name):
+                    return None
+                neg = b0.get("k") == "Un" and b0["op"] == "-" and C.strip_casts(b0["x"]).get("n") == err_name
+                pos = b0.get("k") == "Ref" and b0.get("n") == err_name
+                if not (neg or pos):
+                    return None
+                # cases: 'below' r < -E, 'above' r > E, 'between' -E <= r <= E   (E >= 0)
+                if neg:      # r ? -E
+                    val = {"below": -1, "between": 1, "above": 1}[case]       # sign of r - (-E); between counts as >=
+                    strict = {"below": True, "between": False, "above": True}[case]
+                else:        # r ? E
+                    val = {"below": -1, "between": -1, "above": 1}[case]
+                    strict = {"below": True, "between": False, "above": True}[case]
+                if c["op"] == "<":
+                    return val < 0 and strict
+                if c["op"] == ">":
+                    return val > 0 and strict
+                if c["op"] == "<=":
+                    return val < 0 or not strict
+                return val > 0 or not strict
+            return t
         shape = False
         exact_call = None
-        if chf:
-            lt = [k2 for k2 in chf if k2 != "else" and k2[0] == "<"]
-            gt = [k2 for k2 in chf if k2 != "else" and k2[0] == ">"]
-            if len(lt) == 1 and len(gt) == 1 and "else" in chf:
-                a, b = lt[0][1], lt[0][2]
-                c2, d2 = gt[0][1], gt[0][2]
-                if b and b.startswith("-") and d2 == b[1:] and a == c2:
-                    res_name, err_name = a, d2
-                    shape = C.const_int(chf[lt[0]]) == -1 and C.const_int(chf[gt[0]]) == 1
-                    exact_call = C.strip_casts(chf["else"])
+        if res_name and err_name:
+            try:
+                rb = decide(tailf, truth_case("below"), u, cls)
+                ra = decide(tailf, truth_case("above"), u, cls)
+                rm = decide(tailf, truth_case("between"), u, cls)
+                shape = rb is not None and ra is not None and rm is not None and C.const_int(rb) == -1 and \
+                    C.const_int(ra) == 1 and rm.get("k") == "Call"
+                exact_call = rm if rm is not None and rm.get("k") == "Call" else None
+            except _Undecided:
+                shape = False
         n += 1
         chk.require(shape and res_name in locs and err_name in locs, "E5",
                     "%s answers -1 below -errbound, +1 above +errbound and otherwise defers to the exact test" % adapt_name,
-                    where(tailf or fa, fa), "the decision structure is not `r < -E -> -1; r > E -> +1; else exact`",
+                    where((tailf or [fa])[0], fa), "the decision structure is not `r < -E -> -1; r > E -> +1; else exact`",
                     function=fa["full"], construct="filter decision")
         if not (shape and res_name in locs and err_name in locs):
             continue
